@@ -811,6 +811,31 @@ def work_planeval(item, col):
                 col.violation(SIG.format("evaluate_plans", K_PSHAPE), dict(meta, shape=got.shape))
             elif not close(got, ref, 1e-5):
                 col.violation(SIG.format("evaluate_plans", K_PLAN), dict(meta, got=got, expected=ref, actions=acts, trajectories=traj))
+        # a reward model with state (a goal that moves between two plannings), the same object used twice on arrays of the
+        # same shapes: the second evaluation is of the model as it is THEN
+        class Goal:
+            def __init__(self):
+                self.goal = 0.0
+
+            def __call__(self, act, obs):
+                return -jnp.sum((obs - self.goal) ** 2, axis=-1) - 0.1 * jnp.sum(act**2, axis=-1)
+
+        gm = Goal()
+        meta = dict(n_samples=S, n_particles=P, horizon=H, action_dim=A, obs_dim=O, reward_model="stateful goal model, used twice")
+        try:
+            first = np.asarray(pets.evaluate_plans(jnp.asarray(acts), jnp.asarray(traj), gm), dtype=np.float64)
+            gm.goal = 2.5
+            second = np.asarray(pets.evaluate_plans(jnp.asarray(acts), jnp.asarray(traj), gm), dtype=np.float64)
+        except Exception as e:  # noqa: BLE001
+            col.tick(1)
+            col.violation(SIG.format("evaluate_plans", K_RAISES), dict(meta, error=repr(e)[:300]))
+            continue
+        refs = [plan_ref(acts, traj, lambda a_, o_, g=g: -np.sum((o_ - g) ** 2, axis=-1) - 0.1 * np.sum(a_**2, axis=-1)) for g in (0.0, 2.5)]
+        col.tick(2, ("planeval-stateful", S, P, H, A, O))
+        col.outcome("plan_evaluations_of_a_stateful_reward_model_used_twice")
+        if not close(first, refs[0], 1e-5) or not close(second, refs[1], 1e-5):
+            col.violation(SIG.format("evaluate_plans", K_PLAN), dict(meta, first=first, expected_first=refs[0], second=second, expected_second=refs[1],
+                                                                      second_equals_first=bool(np.array_equal(first, second))))
     col.sample(dict(section="planeval", last=meta, got=got, expected=ref))
 
 
